@@ -997,8 +997,8 @@ def run_probe19(tier, seed, th):
     os.makedirs(cdir, exist_ok=True)
     n = 6000 if tier == 'quick' else 120000
     res = {'evaluations': 0, 'distinct': 0, 'violations': [], 'samples': [], 'known': {}, 'json_fail_illformed': 0, 'noncanonical': 0,
-           'decode_evaluations': 0,
-           'rule': 'every registered sentinel.* type, type-directed boundary values, real ProtoCodec Marshal/Unmarshal/MarshalJSON/UnmarshalJSON vs the Lean wire model (bytes equal); mutated bytes through real Unmarshal vs model decode'}
+           'decode_evaluations': 0, 'json_predictions': 0, 'json_trees_compared': 0,
+           'rule': 'every registered sentinel.* type, type-directed boundary values, real ProtoCodec Marshal/Unmarshal/MarshalJSON/UnmarshalJSON vs the Lean wire model (bytes equal) and the Lean JSON model (outcome of the JSON round trip predicted, JSON tree of the binary normal form equal); mutated bytes through real Unmarshal vs model decode'}
     types = set()
     for mode in ('enc', 'dec'):
         lines_path = os.path.join(cdir, mode + '.txt')
@@ -1022,14 +1022,26 @@ def run_probe19(tier, seed, th):
                     if b != 'ok' and len(res['violations']) < 5:
                         res['violations'].append({'msg': 'model decode and real Unmarshal differ', 'failing_input': a[:600], 'model': b[:300]})
                     continue
+                if a.startswith('anytypes'):
+                    # header: the sentinel.* messages the interface registry resolves (what an Any may hold)
+                    res['anytypes_checked'] = res.get('anytypes_checked', 0) + 1
+                    if b != 'ok' and len(res['violations']) < 5:
+                        res['violations'].append({'msg': "the model's list of Any-resolvable types differs from the application's interface registry",
+                                                  'failing_input': a[:800], 'model': b[:400]})
+                    continue
                 res['evaluations'] += 1
-                m = re.match(r'^pb (\S+) (.*) => (\S+) rt=(\S+) strict=([01]) json_rt=(\S+)$', a)
+                m = re.match(r'^pb (\S+) (.*) => (\S+) rt=(\S+) strict=([01]) json_rt=(\S+) json=(\S+)$', a)
                 if not m:
                     raise Broken('unparsable probe19 line: ' + a[:200])
-                name, text, wire, rt, strict, jrt = m.groups()
+                name, text, wire, rt, strict, jrt, rtree = m.groups()
+                # model answer: `<hex | err:...> ;; json=<1|0|-> <canonical text of the model's JSON tree | ->`
+                mj = re.match(r'^(.*) ;; json=(\S+) (\S+)$', b)
+                if not mj:
+                    raise Broken('unparsable model answer: ' + b[:200])
+                b, pred, mtree = mj.groups()
                 types.add(name)
                 if len(res['samples']) < 6 and res['evaluations'] % 499 == 1:
-                    res['samples'].append({'type': name, 'value': text[:160], 'wire': wire[:80], 'json_rt': jrt[:60]})
+                    res['samples'].append({'type': name, 'value': text[:160], 'wire': wire[:80], 'json_rt': jrt[:60], 'json_predicted': pred})
                 bad = None
                 if b.startswith('err:noncanonical'):
                     res['noncanonical'] += 1
@@ -1041,13 +1053,29 @@ def run_probe19(tier, seed, th):
                     bad = 'model bytes differ from real bytes'
                 elif rt != '1':
                     bad = 'real binary round trip fails on a canonical value (rt=%s)' % rt
+                # JSON: the model PREDICTS the outcome of MarshalJSON then UnmarshalJSON (Hub.SDK.ProtoJson,
+                # theorem Hub.Props.C19Json.json_roundtrip_iff), also for values the binary model calls non-canonical
+                if bad is None and pred in ('0', '1'):
+                    res['json_predictions'] += 1
+                    if (pred == '1') != (jrt == '1'):
+                        bad = 'model predicts JSON round trip %s, real codec json_rt=%s' % (
+                            'succeeds' if pred == '1' else 'fails', jrt[:120])
+                    elif rtree != '-' and not rtree.startswith('err:'):
+                        res['json_trees_compared'] += 1
+                        if rtree != mtree:
+                            k = next((x for x in range(min(len(rtree), len(mtree))) if rtree[x] != mtree[x]), min(len(rtree), len(mtree)))
+                            bad = 'model JSON tree differs from the real JSON at %d: real …%s model …%s' % (
+                                k, rtree[max(0, k - 40):k + 40], mtree[max(0, k - 40):k + 40])
+                elif bad is None and not b.startswith('err:noncanonical'):
+                    bad = 'model gives no JSON prediction: ' + pred
                 if bad is None and jrt != '1' and not b.startswith('err:noncanonical'):
+                    # a failure the model predicted: still a failure of C19 — reported under its finding
                     if F7_SIG.search(jrt):
                         res['known']['F7'] = res['known'].get('F7', 0) + 1
                     elif (jrt == '0' and not valid_utf8_strings(text)) or ILLFORMED_ANY.search(jrt):
                         res['json_fail_illformed'] += 1
                     else:
-                        bad = 'JSON round trip fails: ' + jrt[:120]
+                        bad = 'JSON round trip fails (as the model predicts): ' + jrt[:120]
                 if bad and len(res['violations']) < 5:
                     res['violations'].append({'msg': bad, 'failing_input': a[:800], 'model': b[:200]})
         if not res['violations']:
